@@ -128,6 +128,25 @@ def eval_case(ctx, case):
                 V("hashdate-missing", f"{rec['path']} {h['format']} has no hashdate")
             else:
                 check_date("hashdate", h["hashdate"], now + 0.25, 1.0)
+    # dates that are READ from a manifest and written again keep their instant: the history is flattened in another zone
+    other = "Asia/Tokyo" if zone not in ("Asia/Tokyo", "Etc/GMT-9") else "America/St_Johns"
+    dest = ctx.fresh("c16dest")
+    sub.materialise(ctx.root, post)
+    r = ctx.run("flatten", [ctx.root, dest], now=now + 500, tz=other)
+    out = sub.readback(dest)
+    pls = [p for p in out if p.endswith(".mhl")]
+    if r.exit != 0 or r.exc or len(pls) != 1:
+        V("flatten-fails", f"flatten in zone {other}: exit {r.exit} {r.exc}, destination {sorted(out)[:4]}")
+        return v
+    fm = ref.read_manifest(out[pls[0]])
+    for rec in fm["records"]:
+        for h in rec["hashes"]:
+            d = parse_iso(h["hashdate"]) if h["hashdate"] else None
+            if d is None or abs(d.timestamp() - (now + 0.25)) >= 1.0:
+                V("date-instant", f"flatten in zone {other}: hashdate of {rec['path']} ({h['format']}) is {h['hashdate']}, the digest was made at "
+                  f"{datetime.datetime.fromtimestamp(now + 0.25, z).isoformat()}", what="flattened-hashdate",
+                  off_by_hour=False)
+                break
     return v
 
 
@@ -169,7 +188,7 @@ def main(tier, seed):
     cov = {"evaluations": len(cases), "distinct_nontrivial": len(distinct), "exhaustive": True, "zones": len(zones),
            "rule": "product zone x now x mtime x sizes: zones {UTC, fixed +5, fixed -8, +5:30, Berlin, New York, Sydney, Chatham} "
                    "(thorough: every zone of the system tz database with a transition in 2021); now and mtime each in {mid-January, "
-                   "mid-July, 1 s before / after each transition of 2021}; sizes {0, 1, 1 MiB+1} and a file reached through a symbolic link (its own mtime 40 days older); every seal with TZ set + tzset() "
+                   "mid-July, 1 s before / after each transition of 2021}; sizes {0, 1, 1 MiB+1} and a file reached through a symbolic link (its own mtime 40 days older); every history flattened in another zone (hash dates keep their instants); every seal with TZ set + tzset() "
                    "and a virtual clock; size attribute == real size, every date well-formed ISO-8601, true instant (within 1 s), "
                    "offset == zoneinfo offset at that instant, manifest name == UTC time"}
     eng.assumptions.append("zoneinfo + the system tz database are the reference for offsets")
